@@ -627,6 +627,7 @@ func main() {
 		"PolicySites.lean":  genPolicySites(p),
 		"SyncSkeleton.lean": genSyncSkeleton(p),
 		"WriterSkeleton.lean": genWriterSkeleton(p),
+		"UnmarshalSkeleton.lean": genUnmarshalSkeleton(p),
 		"SharedAccess.lean": genSharedAccess(p, db),
 	}
 	names := []string{}
